@@ -106,6 +106,54 @@ pub fn ops<T: MontConfig<N>, const N: usize>(fl: &str, name: &str, rng: &mut Rng
             if $m == 0 { "_".to_string() } else { bb.iter().map(|x| h(&x.0 .0)).collect::<Vec<_>>().join(",") }), &h(&r.0 .0));
     }}; }
     for _ in 0..(if thorough { 4 } else { 2 }) { sop!(0); sop!(1); sop!(2); sop!(3); sop!(4); sop!(5); sop!(7); sop!(8); sop!(16); sop!(33); }
+    // integer / byte-string / decimal conversions
+    {
+        let ints: Vec<u128> = { let mut v = vec![0u128, 1, 2, 255, 256, 257, u64::MAX as u128, (u64::MAX as u128) + 1, u128::MAX, u128::MAX - 1, 1 << 127, (1 << 127) - 1,
+            T::MODULUS.0[0] as u128, (T::MODULUS.0[0] as u128).wrapping_sub(1), (T::MODULUS.0[0] as u128) + 1];
+            if N >= 2 { let m = T::MODULUS.0[0] as u128 + ((T::MODULUS.0[1] as u128) << 64); v.push(m); v.push(m.wrapping_sub(1)); v.push(m.wrapping_add(1)); }
+            for _ in 0..(if thorough { 12 } else { 3 }) { v.push(((rng.next() as u128) << 64) | rng.next() as u128); v.push(rng.next() as u128); }
+            v };
+        for &x in &ints {
+            out.line(&format!("C01 fromu128 {} {:x}", pfx, x), &guarded(|| h(&F::<T, N>::from(x).0 .0)));
+            out.line(&format!("C01 fromu64 {} {:x}", pfx, x as u64), &guarded(|| h(&F::<T, N>::from(x as u64).0 .0)));
+            let xi = x as i128;
+            let hi = |v: i128| if v < 0 { format!("-{:x}", v.unsigned_abs()) } else { format!("{:x}", v) };
+            out.line(&format!("C01 fromi128 {} {}", pfx, hi(xi)), &guarded(|| h(&F::<T, N>::from(xi).0 .0)));
+            let x64 = x as u64 as i64;
+            out.line(&format!("C01 fromi64 {} {}", pfx, hi(x64 as i128)), &guarded(|| h(&F::<T, N>::from(x64).0 .0)));
+            out.line(&format!("C01 fromu64 {} {:x}", pfx, x as u8), &guarded(|| h(&F::<T, N>::from(x as u8).0 .0)));
+            out.line(&format!("C01 fromu64 {} {:x}", pfx, x as u32), &guarded(|| h(&F::<T, N>::from(x as u32).0 .0)));
+        }
+        let nb = ((T::MODULUS.num_bits() + 7) / 8) as usize;
+        // oversized limb counts (hand-written configs with more limbs than the modulus needs) are outside
+        // the property's quantifier for the byte-string conversions (from_random_bytes rejects them)
+        let minimal = T::MODULUS.num_bits() as usize > 64 * (N - 1);
+        for len in [0usize, 1, 2, nb.saturating_sub(2), nb - 1, nb, nb + 1, nb + 2, 2 * nb, 2 * nb + 3, 100] {
+            if !minimal { break; }
+            for pat in 0..3 {
+                let bytes: Vec<u8> = (0..len).map(|_| match pat { 0 => 0xffu8, 1 => (rng.next() & 0xff) as u8, _ => if rng.below(4) == 0 { 0 } else { (rng.next() & 0xff) as u8 } }).collect();
+                out.line(&format!("C01 frombytesle {} {}", pfx, hex_list_u8(&bytes)), &guarded(|| h(&F::<T, N>::from_le_bytes_mod_order(&bytes).0 .0)));
+                out.line(&format!("C01 frombytesbe {} {}", pfx, hex_list_u8(&bytes)), &guarded(|| h(&F::<T, N>::from_be_bytes_mod_order(&bytes).0 .0)));
+            }
+        }
+        // decimal strings (num-bigint does the digit work): value, -value, value ≥ p
+        use core::str::FromStr;
+        for t in 0..6 {
+            let v = big(&vals[rng.below(m as u64) as usize]) + if t % 2 == 0 { BigUint::from(0u8) } else { big(&T::MODULUS.0) * BigUint::from(3u8) };
+            let s = if t >= 3 { format!("-{}", v) } else { format!("{}", v) };
+            let hx = if t >= 3 { format!("-{:x}", v) } else { format!("{:x}", v) };
+            let r = match F::<T, N>::from_str(&s) { Ok(e) => h(&e.0 .0), Err(_) => "err".into() };
+            out.line(&format!("C01 fromstr {} {}", pfx, hx), &r);
+        }
+        for t in 0..4 {
+            let a = vals[(t * 7 + 1) % m];
+            let e = el::<T, N>(&a);
+            let d = format!("{}", e);
+            let parsed = BigUint::from_str(&d).map(|b| format!("{:x}", b)).unwrap_or("err".into());
+            // the printed decimal must denote the standard value: result = hex of the parsed decimal
+            out.line(&format!("C01 display {} {} {}", pfx, h(&a), parsed), &parsed);
+        }
+    }
     // batch inversion
     for len in [0usize, 1, 2, 3, 5, 9] {
         let mut v: Vec<F<T, N>> = (0..len).map(|_| el::<T, N>(&vals[rng.below(m as u64) as usize])).collect();
